@@ -206,6 +206,13 @@ def eval_group(arg):
             if isinstance(rows_before, str):
                 rows_before = []
             hashes_before = {(r[0], r[1]): realrun.tree_hash(dst.out_dir(r[0], r[1])) for r in rows_before}
+            # version directories that exist without being recorded (a leftover copied in by hand, kept after the index
+            # was lost): "no existing version directory has been modified" covers them as well
+            unrecorded_before = {}
+            for x in arows:
+                d0 = dst.out_dir(x[0], x[1])
+                if (x[0], x[1]) not in hashes_before and os.path.isdir(d0):
+                    unrecorded_before[(x[0], x[1])] = realrun.tree_hash(d0)
             r = dst.cond(["restore", arch], timeout=120, **kw)
             wait_orphans(dst, timeout=2.0)
             rows_after = dst.rows()
@@ -260,6 +267,14 @@ def eval_group(arg):
                 if h2 != h:
                     outs["violations"].append({"key": "C12:existing-version-directory-modified", "msg": "restore (%s) changed the directory of the already recorded version %s: %s -> %s" % (kind, k0, h, h2), "witness": W})
                     break
+            if not ok_exit:
+                for k0, h in unrecorded_before.items():
+                    bump("c12_existing_unrecorded_dir_checks")
+                    d0 = dst.out_dir(k0[0], k0[1])
+                    h2 = realrun.tree_hash(d0) if os.path.isdir(d0) else "absent"
+                    if h2 != h:
+                        outs["violations"].append({"key": "C12:existing-unrecorded-version-directory-modified", "msg": "restore (%s) failed and changed or removed the directory %s that existed (unrecorded) before it: %s -> %s" % (kind, k0, h, h2), "witness": W})
+                        break
             if rows_before:
                 bump("c12_nontrivial")
             outs["sample"] = {"fault": fault, "site": site, "exit": r.code, "signal": r["signal"], "rows_before": len(rows_before), "rows_after": len(rows_after), "archive_rows": len(arows)}
